@@ -153,6 +153,13 @@ class C07(Check):
                 {"users": [[1, 0]], "progs": [[SE, SE, SE, SXE, CL, SXE, S0, SX], [CL, S0]]},               # depth 3, two inner levels by exception
                 {"users": [[1, 0]], "progs": [[SE, SE, SX, S0, SE, SXE, CL, SX], [S0, CL]]},                # inner left normally, then re-entered                                     # callLater from cooperative code and from threads
             ]
+            for b in base[1:6]:
+                cases.append({"kind": "threads", "threaded": threaded, "users": b["users"], "progs": b["progs"], "falsy_task": 1,
+                              "sched": {"type": "pct", "seed": 1, "d": 2, "k": 150}})
+            for j, b in enumerate(base[1:]):                 # other calling conventions of schedule() / Synchronizer
+                progs = [[dict(op, f=(k + j) % 4) if op["o"] == "schedule" else op for k, op in enumerate(p)] for p in b["progs"]]
+                cases.append({"kind": "threads", "threaded": threaded, "users": b["users"], "progs": progs, "syncform": 1 + j % 2,
+                              "sched": {"type": "pct", "seed": 2, "d": 2, "k": 150}})
             for b in base:
                 for seed in range(3):
                     cases.append({"kind": "threads", "threaded": threaded, "users": b["users"], "progs": b["progs"],
@@ -160,6 +167,7 @@ class C07(Check):
                 cases.append({"kind": "threads", "threaded": threaded, "users": b["users"], "progs": b["progs"],
                               "sched": {"type": "preempt", "points": []}})
         cases += self.burst_cases([1, 2, 1023, 1024, 1025])
+        cases += self.batch_cases()
         # task objects that are falsy (a Task subclass with __len__/__bool__): `if not self._locked` takes a lock held by such a
         # task for free.  Exercised when the code carries the repair (fixes/C07-2_lock_falsy_holder.diff) or the finding is listed.
         fixed = any(t in REPAIRED for rel, qual, sts, span in self.extract for t, ln in sts)
@@ -175,6 +183,43 @@ class C07(Check):
         cases += [{"kind": "pinger", "ops": ops} for ops in ([0, 1], [0, 0, 0, 1, 0, 1], [0] * 5 + [1, 0, 1, 0, 0, 1])]
         cases += [{"kind": "pinger", "ops": [0] * n + [1, 0, 1]} for n in (1, 2, 1023, 1024, 1025, 2048, 2049)]     # around the read size
         return cases
+
+    EXCS = ["IndexError", "KeyError", "ValueError", "RuntimeError", "StopIteration", "GeneratorExit", "BaseExc"]
+
+    def batch_cases(self):
+        """hand-over batches (the whole batch is queued before the scheduler thread drains) in which the function at EVERY position
+        raises, for every exception class (IndexError = the drain loop's own "queue empty" signal; a BaseException that is not an
+        Exception); every way of handing over (positional / keyword / no arguments, Scheduler / core entry points); the SAME callable
+        with the SAME arguments queued several times; callables that are falsy.  Every function must run exactly once, in order,
+        with the arguments it was handed over with, with no further hand-over and no polling time-out."""
+        out = []
+        first = {"type": "preempt", "points": [], "order": ["F0", "F1", "S", "H"]}
+        def case(threaded, progs, sched=first, **kw):
+            c = {"kind": "threads", "threaded": threaded, "users": [], "progs": progs, "sched": sched}
+            c.update(kw); return c
+        for threaded in (False, True):
+            for x in self.EXCS:
+                for n in (2, 3):
+                    for pos in range(n):
+                        out.append(case(threaded, [[dict(o="callLater", x=x) if i == pos else dict(o="callLater") for i in range(n)]]))
+            out.append(case(threaded, [[dict(o="callLater", x=x) for x in self.EXCS] + [dict(o="callLater")]]))
+            # a raising function while another thread keeps handing over (the drain and the appends interleave)
+            for seed in range(3):
+                out.append(case(threaded, [[dict(o="callLater", x="IndexError"), dict(o="callLater"), dict(o="callLater", x="BaseExc"), dict(o="callLater")],
+                                           [dict(o="callLater", x="KeyError"), dict(o="callLater")]],
+                                sched={"type": "pct", "seed": seed, "d": 2, "k": 150}))
+            # every calling convention, and identical queue entries
+            out.append(case(threaded, [[dict(o="callLater", f=f) for f in range(6)]]))
+            out.append(case(threaded, [[dict(o="callLater", f=5)] * 3, [dict(o="callLater", f=5)] * 2]))
+            out.append(case(threaded, [[dict(o="callLater", f=5), dict(o="callLater", f=5, x="IndexError"), dict(o="callLater", f=5)]]))
+            out.append(case(threaded, [[dict(o="callLater", f=f) for f in (5, 1, 5, 3, 5)], [dict(o="callLater", f=f) for f in (4, 5)]],
+                            sched={"type": "pct", "seed": 1, "d": 2, "k": 150}))
+            out.append(case(threaded, [[dict(o="callLater", f=f) for f in range(6)]], falsy_cb=1))
+            # hand-overs from cooperative code (a task's slice), one of them raising
+            for sx in (["IndexError", None, None], [None, "BaseExc", None], [None, None, "KeyError"]):
+                c = case(threaded, [[dict(o="callLater")]], sx=sx); c["users"] = [[2, 2, 2, 0]]
+                out.append(c)
+        return out
 
     def burst_cases(self, sizes):
         """a foreign thread hands over N calls in one go, before the scheduler thread gets to drain (the thread runs first and
@@ -207,8 +252,14 @@ class C07(Check):
             p, depth = [], 0
             for _ in range(rng.choice([1, 2, 2, 3]) if not big else rng.randrange(2, 6)):
                 c = rng.random()
-                if c < 0.4: p.append({"o": "callLater"})
-                elif c < 0.65 and nu: p.append({"o": "schedule", "t": rng.randrange(nu)})
+                if c < 0.4:
+                    op = {"o": "callLater"}
+                    if rng.random() < 0.2: op["x"] = rng.choice(self.EXCS)
+                    if rng.random() < 0.5: op["f"] = rng.randrange(6)
+                    p.append(op)
+                elif c < 0.65 and nu:
+                    p.append({"o": "schedule", "t": rng.randrange(nu)})
+                    if rng.random() < 0.3: p[-1]["f"] = rng.randrange(4)
                 elif c < 0.85 and depth < 3: p.append({"o": "syncEnter"}); depth += 1
                 elif depth: p.append({"o": rng.choice(["syncExit", "syncExitExc"])}); depth -= 1
                 else: p.append({"o": "callLater"})
@@ -219,7 +270,13 @@ class C07(Check):
             sched = {"type": "pct", "seed": rng.randrange(1 << 30), "d": rng.choice([1, 2, 3]), "k": rng.choice([60, 150, 300])}
         else:
             sched = {"type": "random", "seed": rng.randrange(1 << 30)}
-        return {"kind": "threads", "threaded": rng.random() < 0.5, "users": users, "progs": progs, "sched": sched}
+        case = {"kind": "threads", "threaded": rng.random() < 0.5, "users": users, "progs": progs, "sched": sched}
+        if rng.random() < 0.1: case["falsy_cb"] = 1
+        if nu and rng.random() < 0.15: case["falsy_task"] = 1
+        if rng.random() < 0.15: case["syncform"] = rng.choice([1, 2])
+        if rng.random() < 0.15: case["sx"] = [rng.choice(self.EXCS + [None, None]) for _ in range(3)]
+        if rng.random() < 0.15: case["sched"] = {"type": "preempt", "points": [], "order": ["F%d" % i for i in range(nf)] + ["S", "H"]}
+        return case
 
     def generate(self, rng, tier):
         n = 800 if tier == "quick" else 3000
@@ -354,6 +411,11 @@ class C07(Check):
                 def __init__(self, idx, prog):
                     self.idx, self.prog = idx, list(prog)
                     recoco.BaseTask.__init__(self)
+                def __len__(self):                       # falsy variant: a task that is also an empty container
+                    if case.get("falsy_task"): return 0
+                    raise TypeError("object of type 'UserTask' has no len()")
+                def __bool__(self):
+                    return not case.get("falsy_task")
                 def body(self):
                     ctl.yield_point(("user", self.idx))
                     st.slices.append(self.idx)
@@ -372,9 +434,10 @@ class C07(Check):
                         while i < len(prog) and prog[i] >= 2:
                             it = prog[i]; i += 1
                             if it == 2:
-                                f = functools.partial(callback, 0, st.snsub)
-                                st.submitted.append([0, st.snsub]); st.snsub += 1
-                                sched.callLater(f)
+                                n = st.snsub
+                                st.submitted.append([0, n]); st.snsub += 1
+                                sx = case.get("sx") or []
+                                hand_over(0, n, sx[n] if n < len(sx) else None, n % 2)
                             else:
                                 v = it - 3
                                 st.wake_marks.append([v, len(st.slices)])
@@ -394,41 +457,85 @@ class C07(Check):
                 th = sched._thread
                 return (th is not None and th.mt is not None and _real_threading.current_thread() is th.mt.real
                         and recoco.threading.current_thread() is th)
-            def callback(by, seq):
-                ctl.yield_point(("cb", by, seq))
-                who = ctl.me()
-                tid = tid_of(who.name) if who is not None else -1
-                if tid == 0 and not on_scheduler_thread(): tid = -2
-                st.executed.append([by, seq, tid])
-                if insec: st.insec_violations.append(["cb", by, seq, sorted(insec)])
+            class HandedOverBase(BaseException):
+                """a BaseException (not an Exception) raised by a handed-over function"""
+            EXC = {"IndexError": IndexError, "KeyError": KeyError, "ValueError": ValueError, "RuntimeError": RuntimeError,
+                   "StopIteration": StopIteration, "GeneratorExit": GeneratorExit, "BaseExc": HandedOverBase}
+            falsy_cb = bool(case.get("falsy_cb"))
+            class Handler:
+                """the callable a submitter hands over — ONE object per submitter, reused for all its hand-overs; `same`
+                hand-overs pass no arguments at all (identical (func, args, kw) triples in the queue)"""
+                def __init__(self, by): self.by = by; self.same = collections.deque()
+                def __len__(self): return 0 if falsy_cb else 1           # a callable that is also an empty container
+                def __call__(self, *a, **k):
+                    if not a and not k:
+                        if not self.same: st.bad_args.append([self.by, "same call without a pending hand-over"]); return
+                        by, seq, exc = self.same.popleft()
+                    else:
+                        try:
+                            by, seq, exc = (lambda by, seq, exc=None: (by, seq, exc))(*a, **k)
+                        except TypeError:
+                            st.bad_args.append([self.by, "args=%r kw=%r" % (a, sorted(k))]); return
+                        if by != self.by or not isinstance(seq, int): st.bad_args.append([self.by, [by, seq]])
+                    ctl.yield_point(("cb", by, seq))
+                    who = ctl.me()
+                    tid = tid_of(who.name) if who is not None else -1
+                    if tid == 0 and not on_scheduler_thread(): tid = -2
+                    st.executed.append([by, seq, tid])
+                    if insec: st.insec_violations.append(["cb", by, seq, sorted(insec)])
+                    if exc: raise EXC[exc]("raised by a handed-over function")
+            handlers = {}
+            def handler(by):
+                if by not in handlers: handlers[by] = Handler(by)
+                return handlers[by]
             class Src:
                 def __init__(self, f): self.raiseEvent = f
             corestub = _Stub(); corestub.scheduler = sched
             corestub.call_later = functools.partial(pcore.POXCore.call_later, corestub)
+            def hand_over(by, seq, exc, form):
+                """all the ways of handing a function over: Scheduler.callLater / core.callLater / core.call_later /
+                core.raiseLater, arguments positional or by keyword, or no arguments at all"""
+                H = handler(by)
+                if form == 0: sched.callLater(H, by, seq, exc)
+                elif form == 1: sched.callLater(H, by=by, seq=seq, exc=exc)
+                elif form == 2: pcore.POXCore.callLater(corestub, H, by, seq, exc)
+                elif form == 3: pcore.POXCore.call_later(corestub, H, seq=seq, exc=exc, by=by)
+                elif form == 4: pcore.POXCore.raiseLater(corestub, Src(H), by, seq, exc=exc)
+                else:
+                    H.same.append((by, seq, exc)); sched.callLater(H)
 
+            own_sync = {}
+            def synchronizer(tid):
+                """the thread's context manager: scheduler.synchronized() (one per thread, kept by the scheduler), or a Synchronizer
+                the thread made itself — by keyword, or relying on the default scheduler"""
+                f = case.get("syncform", 0)
+                if not f: return sched.synchronized()
+                if tid not in own_sync:
+                    own_sync[tid] = recoco.Synchronizer(scheduler=sched) if f == 1 else recoco.Synchronizer()
+                return own_sync[tid]
             def foreign(i, prog):
                 tid, nsub, depth = 2 + i, 0, 0
                 for op in prog:
                     ctl.yield_point(("begin", i))
                     o = op["o"]
                     if o == "callLater":
-                        f = functools.partial(callback, tid, nsub)
                         st.submitted.append([tid, nsub])
-                        v = nsub % 3
-                        if v == 0: sched.callLater(f)
-                        elif v == 1: pcore.POXCore.callLater(corestub, f)
-                        else: pcore.POXCore.raiseLater(corestub, Src(f))
+                        hand_over(tid, nsub, op.get("x"), op.get("f", (0, 2, 4)[nsub % 3]))
                         nsub += 1
                     elif o == "schedule":
                         st.wake_marks.append([op["t"], len(st.slices)])      # the task must run (again) after this point
-                        sched.schedule(users[op["t"]])
+                        u, f = users[op["t"]], op.get("f", 0)
+                        if f == 0: sched.schedule(u)
+                        elif f == 1: sched.schedule(task=u, first=False)
+                        elif f == 2: u.start(sched)
+                        else: u.start(scheduler=sched, fast=False)
                     elif o == "syncEnter":
-                        s = sched.synchronized(); syncs[tid] = s
+                        s = synchronizer(tid); syncs[tid] = s
                         s.__enter__()
                         depth += 1
                         insec.add(tid)
                     elif o in ("syncExit", "syncExitExc"):
-                        s = sched.synchronized()
+                        s = synchronizer(tid)
                         depth -= 1
                         if depth == 0: insec.discard(tid)
                         if o == "syncExit": s.__exit__(None, None, None)
@@ -470,6 +577,12 @@ class C07(Check):
             self._redir = contextlib.ExitStack()
             self._redir.enter_context(contextlib.redirect_stdout(sink)); self._redir.enter_context(contextlib.redirect_stderr(sink))
             status = ctl.run(policy)
+            for t in ctl.threads:
+                # an exception raised BY HARNESS CODE (an attribute of the real classes it reads is gone, ...) is a broken tie, not
+                # an input on which the property fails; exceptions raised by the code under test (or on purpose by a handed-over
+                # function) are observables
+                if t.error and t.origin and os.path.basename(t.origin.split(":")[0]) == "c07.py" and "raised by a handed-over function" not in t.error:
+                    raise HarnessError("harness code failed in thread %s at %s: %s" % (t.name, t.origin, t.error))
             # ---- observables at the end of the controlled run
             def desc(t, depth=0):
                 if isinstance(t, UserTask): return "u%d" % t.idx
@@ -481,17 +594,26 @@ class C07(Check):
                     return "sync?"
                 return type(t).__name__
             clt = sched._callLaterTask
+            def pending_calls(clt):
+                out, nth = [], {}
+                for f, a, k in (list(clt._calls) if clt is not None else []):
+                    if len(a) >= 2: out.append([a[0], a[1]])
+                    elif k: out.append([k.get("by"), k.get("seq")])
+                    else:
+                        H = getattr(f, "__self__", f)             # Src(H).raiseEvent is H itself
+                        i = nth.get(id(H), 0); nth[id(H)] = i + 1
+                        q = list(getattr(H, "same", ()))
+                        out.append(list(q[i][:2]) if i < len(q) else ["same", "?"])
+                return out
             obs = {
                 "status": status, "steps": ctl.steps,
                 "raw": [[tid_of(n)] + list(k) + [1 if to else 0] for n, k, to in ctl.trace],
                 "executed": st.executed, "submitted": st.submitted,
-                "pending": [[f.args[0], f.args[1]] if isinstance(f, functools.partial) and f.func is callback else
-                            [f.__self__.raiseEvent.args[0], f.__self__.raiseEvent.args[1]] if hasattr(f, "__self__") else ["?"]
-                            for f, _, _ in (list(clt._calls) if clt is not None else [])],
+                "pending": pending_calls(clt),
                 "ready": [desc(t) for t in sched._ready],
                 "slices": st.slices, "wake_marks": st.wake_marks,
                 "dup_ready": st.dup_ready, "insec_violations": st.insec_violations, "wrong_thread": st.wrong_thread,
-                "timeouts": st.timeouts,
+                "timeouts": st.timeouts, "bad_args": st.bad_args,
                 "completed": st.completed,
                 "thread_errors": {t.name: t.error for t in ctl.threads if t.error},
                 "blocked_at": {t.name: list(t.key) for t in ctl.threads if not t.done},
@@ -570,6 +692,8 @@ class C07(Check):
         for progs in ([hold, tryl], [hold, tryl, late], [hold, tryl, tryl, late], [tryl, hold, late],
                       [hold, [["acq", 0, 0], ["acq", 1, 1], ["yield"], ["rel", 1]], late, [["acq", 1, 0], ["yield"]]]):
             cases.append({"kind": "lock", "init": [0, 0], "progs": progs, "extrel": 0})
+            for aform in range(1, 6):                    # acquire(0) / acquire(1) / acquire(blocking=...) / acquire()
+                cases.append({"kind": "lock", "init": [0, 0], "progs": progs, "extrel": 0, "aform": aform})
         for combo in itertools.product([0, 1, 3], repeat=4):
             cases.append({"kind": "lock", "init": [0, 0], "progs": [progs2[i] for i in combo], "extrel": 0})
         return cases
@@ -591,7 +715,9 @@ class C07(Check):
                     else: p.append(["rel", rng.randrange(nl)])
                 progs.append(p)
             init = [1 if rng.random() < 0.15 else 0 for _ in range(nl)]
-            yield {"kind": "lock", "init": init, "progs": progs, "extrel": 1 if any(init) else 0}
+            c = {"kind": "lock", "init": init, "progs": progs, "extrel": 1 if any(init) else 0}
+            if rng.random() < 0.4: c["aform"] = rng.randrange(1, 6)
+            yield c
 
     def run_lock(self, case):
         """tasks run their programs of `yield lock.acquire(b)` / `yield lock.release()` / `yield 0` under a real
@@ -605,7 +731,8 @@ class C07(Check):
             def ping(s): s.n += 1
         realp = hub._pinger; hub._pinger = CountPinger()
         try:
-            locks = [recoco.Lock(locked=bool(b)) for b in case["init"]]
+            locks = [(recoco.Lock(bool(b)) if case.get("aform") else recoco.Lock(locked=bool(b))) if b else
+                     (recoco.Lock() if case.get("aform") else recoco.Lock(locked=False)) for b in case["init"]]
             log = []           # operations in execution order with what the real objects show afterwards
             tasks = []
             def state(li):
@@ -614,6 +741,7 @@ class C07(Check):
                 hd = None if (h is None or h is False) else ("flag" if h is True else h.idx)
                 return hd, sorted(t.idx for t in l._waiting)
             falsy = bool(case.get("falsy"))
+            aform = int(case.get("aform", 0))
             class T(recoco.BaseTask):
                 def __init__(self, idx, prog):
                     self.idx, self.prog = idx, prog
@@ -629,7 +757,14 @@ class C07(Check):
                             li = op[1]
                             log.append({"k": "acq", "t": self.idx, "l": li, "b": op[2], "at": len(log)})
                             me = log[-1]
-                            r = yield locks[li].acquire(bool(op[2]))
+                            b, form = bool(op[2]), (aform + len(log)) % 5 if aform else 0
+                            # calling conventions: bool / int, positional / keyword, the default
+                            if form == 0: blk = locks[li].acquire(b)
+                            elif form == 1: blk = locks[li].acquire(int(b))
+                            elif form == 2: blk = locks[li].acquire(blocking=b)
+                            elif form == 3: blk = locks[li].acquire(blocking=int(b))
+                            else: blk = locks[li].acquire() if b else locks[li].acquire(0)
+                            r = yield blk
                             me["rv"] = r; me["resumed_at"] = len(log)
                         elif op[0] == "rel":
                             li = op[1]
@@ -919,13 +1054,15 @@ class C07(Check):
         for by in set(e[0] for e in ex):
             seqs = [e[1] for e in ex if e[0] == by]
             if seqs != sorted(seqs): return "calls of one submitter executed out of submission order"
+        if obs.get("bad_args"):
+            return "a handed-over function was called with other arguments than it was handed over with"
         if any(t[1] for t in obs["timeouts"]):
             return "pending work was only noticed by a polling time-out"
         if obs["status"] == "deadlock":
             return "deadlock: threads blocked for ever (%s)" % obs.get("deadlock_verdict")
         if obs["status"] == "quiescent":
             if sorted(ex) != sorted(map(tuple, obs["submitted"])) or obs["pending"]:
-                return "a submitted call was not executed at quiescence (lost)"
+                return "a handed-over call was not executed at quiescence: lost or stranded in the queue with no wake-up pending"
             if obs["ready"]:
                 return "ready queue not empty at quiescence"
             for u, mark in obs["wake_marks"]:
@@ -1127,6 +1264,10 @@ def _listed(prop, key_prefix):
     return False
 
 
+class HarnessError(Exception):
+    """the harness could not drive this tree (reported by run_check as a broken tie, never as a failing input)"""
+
+
 class _Stub:
     pass
 
@@ -1135,6 +1276,7 @@ class _RunState:
     def __init__(self):
         self.slices, self.executed, self.submitted, self.wake_marks = [], [], [], []
         self.insec_violations, self.wrong_thread, self.timeouts = [], [], []
+        self.bad_args = []
         self.dup_ready = False
         self.snsub = 0
         self.completed = []
